@@ -579,3 +579,46 @@ def c06(tier):
         j = J("cap_r%d" % r, "C06_compact.c", ["-DCAP", "-DRES=%d" % r], unwind=17, us=CPL, est=60, mem="M", bound="2 valid cells of res %d, capacity 0-14, target res <= %d" % (r, r + 1))
         js += with_witness(j) if r == 7 else [j]
     return js
+
+
+# ------------------------------------------------------------------------------------------- C14
+@prop("C14",
+      functions=["gridPathCellsSize", "gridPathCells", "cubeRound", "ijkToCube", "cubeToIjk", "gridDistance", "cellToLocalIjk", "localIjkToCell"],
+      bounds={"quick": "glue: any start/end words, distance 0-3, any distance error, any failing step; end to end: a=b and every neighbour pair of res 0-1",
+              "thorough": "end to end res 0-3"},
+      outside="contiguity and end point for distance >= 2: the floating-point interpolation kernel (symbolic x symbolic multiplication; probed, no verdict) - the main clause of C14 is NOT decided beyond distance 1",
+      assumptions=["glue: gridDistance, cellToLocalIjk, localIjkToCell replaced by arbitrary-result stubs", "L-UP7 checked model in the end-to-end jobs"],
+      stubs=["gridDistance, cellToLocalIjk, localIjkToCell (GLUE)"])
+def c14(tier):
+    js = []
+    js += with_witness(J("glue_path", "C14_path.c", ["-DGLUE"], unwind=7, est=20, stubs={"localij": ["gridDistance", "cellToLocalIjk", "localIjkToCell"]}, witness_expect=["distance error", "step error", "success"], bound="distance 0-3, any errors"))
+    js += up7_lemma(10, checked=True)
+    LL = {"cellToLocalIjk.%d" % i: 7 for i in range(6)}
+    LL.update({"localIjkToCell.%d" % i: 7 for i in range(1, 7)})
+    for r in (0, 1, 2, 3):
+        t = "quick" if r <= 1 else "thorough"
+        j = J("near_r%d" % r, "C14_path.c", ["-DNEAR", "-DRES=%d" % r, "-DUPB=(1<<10)"], unwind=r + 2, us=dict(LL, **{"localIjkToCell.0": r + 2, "gridPathCells.0": 3}), unit_defs=UP7_DEFS_CHK, est=300 + 300 * r, mem="M", tier=t, timeout=3400, core=(r <= 1),
+              bound="a=b and all neighbour pairs of res %d" % r)
+        js += with_witness(j, tier=t) if r == 0 else [j]
+    return js
+
+
+# ------------------------------------------------------------------------------------------- C18
+KNOWN_STATICS = ["MAX_EDGE_LENGTH_RADS", "NORTH_POLE_CELLS", "SOUTH_POLE_CELLS", "RES0_BBOXES", "VALID_RANGE_BBOX", "MAX_SIZE_CELL_THRESHOLD", "H3ErrorDescriptions"]
+
+
+@prop("C18",
+      functions=["every library function (goto symbol table and goto instructions of all 19 units)", "cellToBBox", "baseCellNumToCell", "polygonToCellsExperimental", "iterStepPolygonCompact", "describeH3Error"],
+      bounds="symbol scan: whole library. Frame jobs: cellToBBox on any 64-bit word; polygonToCellsExperimental on a triangle, res <= 1, any flags, <= 3 geometry evaluations, geometry over-approximated; describeH3Error on any int",
+      outside="the step from 'no library-owned object is ever written' to 'all interleavings equal a sequential run' is an argument (no shared writable state => no data race, results depend only on arguments), not a query; libc's own thread safety is trusted; writes through pointers to the known statics are decided only for the calls listed",
+      assumptions=["S-GEO stubs in the polygon frame job"],
+      stubs=["cellToLatLng, cellToBoundary, latLngToCell, polygon predicates, cos (frame job)"])
+def c18(tier):
+    js = []
+    js.append(J("symscan", "C18_frame.c", symscan=True, known_statics=KNOWN_STATICS, est=5, bound="all static-lifetime objects and all assignments of the library's goto program"))
+    PS = {"h3Index": ["cellToLatLng", "cellToBoundary", "latLngToCell"], "polygon": ["pointInsidePolygon", "cellBoundaryInsidePolygon", "cellBoundaryCrossesPolygon"]}
+    js += with_witness(J("frame_bbox", "C18_frame.c", ["-DPOLYFILL"], unwind=17, us={"harness.0": 123, "harness.1": 123, "harness.2": 123, "harness.3": 123, "harness.4": 123, "harness.5": 123, "harness.6": 123, "setH3Index.0": 3}, include_units=["polyfill"], stubs=PS, est=30, mem="M", bound="cellToBBox on any word"))
+    js += [J("frame_polyfill", "C18_frame.c", ["-DPOLYFILL", "-DWITH_ITER"], unwind=5, us={"harness.0": 123, "harness.1": 123, "harness.2": 123, "harness.3": 123, "harness.4": 123, "harness.5": 123, "harness.6": 123, "setH3Index.0": 3, "iterStepPolygonCompact.0": 5, "nextCell.0": 3, "iterStepChild.0": 4, "bboxFromGeoLoop.0": 5, "bboxesFromGeoPolygon.0": 2, "polygonToCellsExperimental.0": 3},
+             include_units=["polyfill"], stubs=PS, est=200, mem="L", timeout=2400, tier="thorough", core=False, bound="polygonToCellsExperimental, triangle, res <= 1")]
+    js += with_witness(J("frame_errdesc", "C18_frame.c", ["-DERRDESC"], unwind=17, include_units=["h3Index"], est=10, bound="describeH3Error on any int"))
+    return js
